@@ -661,4 +661,36 @@ theorem payMint_flow {v : Variant} {f : Factory} {m : Minter} {now : Nat} {ad : 
     have := sale h
     exact ⟨this.1, fun _ => this.2, fun hb => absurd hb hnb⟩
 
+/-- a payee that is neither the developer nor one of the two DAOs gets nothing out of the fee distribution -/
+theorem feeMsgs_inflow_zero (v : Variant) (f : Factory) (price : Coin) (fee : Nat) (a : Addr) (d : Denom)
+    (h3 : a ≠ LIQUIDITY_DAO) (h4 : a ≠ LAUNCHPAD_DAO) (h5 : a ≠ f.devAddr) :
+    inflow a d (feeMsgs v f price fee) = 0 := by
+  apply inflow_zero
+  intro x hx hd
+  unfold feeMsgs at hx
+  by_cases h0 : fee = 0
+  · simp [h0] at hx
+  · simp only [h0, if_false] at hx
+    have hdev : devOf v f = none ∨ devOf v f = some f.devAddr := by
+      unfold devOf; cases v.family <;> simp
+    rcases hdev with hn | hsome
+    · rw [hn, distribute_none] at hx
+      simp only [List.mem_cons, List.not_mem_nil, or_false] at hx
+      rcases hx with e | e <;> subst e <;> simp [msgDest] at hd
+      · exact h3 hd.symm
+      · exact h4 hd.symm
+    · rw [hsome, distribute_some] at hx
+      simp only [List.mem_cons, List.not_mem_nil, or_false] at hx
+      rcases hx with e | e | e <;> subst e <;> simp [msgDest] at hd
+      · exact h5 hd.symm
+      · exact h3 hd.symm
+      · exact h4 hd.symm
+
+theorem sellerMsgs_inflow (v : Variant) (m : Minter) (price : Coin) (fee : Nat) :
+    inflow (sellerOf v m) price.denom (sellerMsgs v m price fee) = price.amount - fee := by
+  unfold sellerMsgs
+  by_cases h0 : price.amount - fee = 0
+  · simp [h0, inflow]
+  · simp [h0, inflow, msgDest, Msg.denom, Msg.amount]
+
 end LP.MintPay
